@@ -1,7 +1,7 @@
 /-
 C02 — realised recombination and segregation match the crossover probabilities.
 Property theorems only (helper lemmas: Lemmas/RecombLoop, RecombLaw, RecombMap, RecombLLN, RecombSpec,
-RecombWiring, RecombKosambi, RecombTV, and (round 3) RecombSpecObs, RecombDense, RecombSelf, RecombGMap; section F
+RecombWiring, RecombKosambi, RecombTV, (round 3) RecombSpecObs, RecombDense, RecombSelf, RecombGMap and (round 4) RecombGenN; section F
 imports C01's Model/Meiosis, Model/Mating and its Lemmas/Mating*; section C' imports C11's Lemmas/GMapSeq).
 
 Model: PybropsModel/Model/Recomb.lean.
@@ -26,6 +26,8 @@ import PybropsModel.Lemmas.RecombSpecObs
 import PybropsModel.Lemmas.RecombDense
 import PybropsModel.Lemmas.RecombSelf
 import PybropsModel.Lemmas.RecombGMap
+import PybropsModel.Lemmas.RecombGenN
+import PybropsModel.Lemmas.RecombStarts
 set_option autoImplicit false
 set_option linter.unusedSectionVars false
 
@@ -541,6 +543,28 @@ theorem xoprob_within_chromosome (h : α → α) (chr : List Int) (pos : List α
     (rprob1g h chr pos)[k + 1]? = some (h (pos[k + 1] - pos[k])) := by
   rw [List.getElem?_eq_getElem (by rw [rprob1g_length]; omega), rprob1g_within h chr pos k hc hp hsame]
 
+/-- **The Spec oracle on stored crossover probabilities accepts the model** (driver op `c02.spec_starts`, evaluated
+    on what `rprob1g` / `rprob1p` / `interp_xoprob` of the implementation store): for every map function, layout
+    and position vector, the probabilities the model assigns pass it. -/
+theorem spec_starts_sound [DecidableEq α] (h : α → α) (chr : List Int) (pos : List α) (hl : chr.length = pos.length) :
+    specStarts chr ((rprob1g h chr pos).map some) = true :=
+  specStarts_rprob1g h chr pos hl
+
+/-- **… and what it demands, exactly**: one value per marker, and exactly 1/2 at marker 0 and at every marker
+    whose chromosome label differs from its predecessor's (`none` = a stored value that is not a finite number
+    never passes there).  Nothing is demanded inside a chromosome (that part of the Spec compares with the map
+    function of the distance in floating point, harness side). -/
+theorem spec_starts_iff [DecidableEq α] (chr : List Int) (xo : List (Option α)) :
+    specStarts chr xo = true ↔
+      xo.length = chr.length ∧
+      ∀ (k : Nat) (c : Int), chr[k]? = some c → (k = 0 ∨ chr[k - 1]? ≠ some c) → xo[k]? = some (some (1 / 2)) :=
+  specStarts_iff chr xo
+
+example : specStarts [7, 7, 3, 5] [some ((1:ℚ)/2), some (1/8), some (1/2), some (1/2)] = true := by decide +kernel
+example : specStarts [7, 7, 3, 5] [some ((1:ℚ)/2), some (1/8), none, some (1/2)] = false := by decide +kernel
+example : specStarts [1, 1, 2] ((rprob1g (fun d : ℚ => d) [1, 1, 2] [0, 1/8, 0]).map some) = true := by
+  decide +kernel
+
 /-- **The `numpy.unique` loop of the source.**  `gdist1g` as written (`uniq, start, counts = numpy.unique(…)`,
     `out = numpy.empty(…)`, `out[st] = inf; out[st+1:sp] = genpos[st+1:sp] - genpos[st:sp-1]` per distinct
     label — C11's literal transcription `GMap.gdist1gLit`) writes every cell and writes exactly the distances
@@ -995,6 +1019,18 @@ theorem selfing_generations_are_single_meioses (P : Proto) (pop : Pop α) (xc : 
     rw [← i3, ← i2, ← i4]
     exact ht
 
+/-- **The call pattern, from C01's protocol model.**  Whenever `generate` succeeds it has consumed exactly
+    `nCalls P nself` draw matrices (two per `mat_mate`, one per `mat_dh`: the crosses of the protocol, two per
+    selfing generation, one for the doubled haploids) — and each of them had the shape `(len(sel), nvrnt)` the
+    meiosis it fed asks for (`Meiosis.meiosisE` rejects any other).  `protoCalls`, the call-pattern oracle of the
+    harness, lists that many calls. -/
+theorem draw_matrices_consumed (P : Proto) (pop : Pop α) (xc : List (List Nat)) (nm np : List Nat) (nself : Nat)
+    (xo : List ρ) (d rest : List (DrawMat ρ)) (prog : Pop α)
+    (h : generate P pop xc nm np nself xo d = .ok (prog, rest)) :
+    d.length = rest.length + nCalls P nself ∧
+    ∀ M N, (protoCalls (protoName P) M N nself).map List.length = some (nCalls P nself) :=
+  ⟨generate_consumes P pop xc nm np nself xo d prog rest h, fun M N => protoCalls_length P M N nself⟩
+
 /-- **Two-way cross with `nself` selfing generations, all meioses named.**  Hybrid k = (gamete of the k-th
     repeated female under row k of `rf`, gamete of the k-th repeated male under row k of `rm`); the progeny
     returned are `selfGens xo nself hyb rest`, i.e. the next `2·nself` draw matrices read two per generation. -/
@@ -1060,6 +1096,15 @@ theorem progeny_segregation_law (xs : List α) (k k' j j' : Nat) (hk : k ≤ j) 
     (fun m => ind ((phases m).getD j' false == c))
   rw [segregation_half xs k j hk hj h1, segregation_half xs k' j' hk' hj' h2] at this
   rw [this]; norm_num
+
+/-- **Identical gametes.**  Two independent meioses on the same vector transmit the same parental copy at EVERY
+    marker with probability `Π (x_k² + (1 - x_k)²)` (the statistic "identical gametes k rows apart" of the
+    harness: recycled blocks of random numbers make it 1). -/
+theorem identical_gametes_law (xs : List α) :
+    E (xs ++ xs) (fun b => ind (phases (b.take xs.length) == phases (b.drop xs.length))) = sameProb xs :=
+  E_same_phases xs
+
+example : sameProb [(1:ℚ)/2, 1/4] = 1/2 * (5/8) := by norm_num [sameProb]
 
 example : E ([(1:ℚ)/2, 1/10, 1/5] ++ [(1:ℚ)/2, 1/10, 1/5]) (fun b =>
       ind ((phases (b.take 3)).getD 0 false != (phases (b.take 3)).getD 2 false) *
@@ -1208,6 +1253,194 @@ theorem progeny_masks_side_by_side (a b xo : List α) (h : a.length = xo.length)
   xoMask_append a b xo xo h
 
 end wiringdraws
+
+/-! ## G. any number of selfing generations (`nself` arbitrary) -/
+section generations
+variable {α : Type} [Field α] [CharZero α]
+
+/-- **Recombination law after `n` selfing generations — every `n`, every vector, every pair of markers, both
+    copies.**  A founder (copies 0 and 1) is selfed `n` times; the `2n` meioses of the line are independent
+    instances of the single-meiosis law (masks laid side by side, oldest generation first:
+    `selfing_generations_are_single_meioses`, `selfed_plant_cell`).  Marker i of copy `c` and marker j of copy
+    `c'` of the generation-`n` plant carry different founder copies with probability
+      `pairProbN = selfIter r w n 0`  when `c = c'` (one chromosome copy: the realised recombination),
+      `crossProbN = selfIter r w n 1` when `c ≠ c'` (the two copies of one plant),
+    where `r = pairProb i j`, `w = u (1 - v) + (1 - u) v`, `u, v = phaseProb i, j`, and one generation acts by
+    `x ↦ r (1 - x) + w x`.  `n = 1` is `recomb_pair`, `n = 2` is `two_generation_recombination_law`
+    (`pairProbN_two`). -/
+theorem n_generation_recombination_law (xs : List α) (i j : Nat) (hij : i < j) (hj : j < xs.length)
+    (n : Nat) (c c' : Bool) :
+    E (rep (2 * n) xs) (fun b => ind (labO xs.length n b c i != labO xs.length n b c' j)) =
+      if c = c' then pairProbN xs i j n else crossProbN xs i j n := by
+  have hU : ∀ k, k < xs.length → E xs (fun b => ind ((phases b).getD k false)) = phaseProb xs k := by
+    intro k hk
+    have := phase_law xs k hk true
+    simp only [if_true] at this
+    rw [← this]
+    apply E_congr; intro b _; cases (phases b).getD k false <;> rfl
+  rw [labO_law_aux xs i j _ _ _ (recomb_pair xs i j hij hj) (hU i (by omega)) (hU j hj) n c c']
+  unfold pairProbN crossProbN crossProb
+  cases c <;> cases c' <;> simp [ind]
+
+/-- one and two generations are the earlier theorems' closed forms -/
+theorem pairProbN_one (xs : List α) (i j : Nat) : pairProbN xs i j 1 = pairProb xs i j := by
+  simp [pairProbN, selfIter, selfStep]
+
+theorem pairProbN_two (xs : List α) (i j : Nat) : pairProbN xs i j 2 = pairProb2 xs i j := by
+  simp only [pairProbN, selfIter, selfStep, pairProb2, crossProb]
+  ring
+
+/-- **Closed form with fair segregation** (a crossover probability 1/2 at or before both markers — chromosome
+    starts assigned from a genetic map): after `n` selfing generations the recombination frequency inside one
+    chromosome copy is `2r (1 - (1/2 - r)^n) / (1 + 2r)` (division-free form; `1 + 2r ≠ 0` for `r ≥ 0`). -/
+theorem selfing_recombination_closed_form (xs : List α) (i j k0 k1 : Nat) (hij : i < j) (hj : j < xs.length)
+    (hk0 : k0 ≤ i) (hk1 : k1 ≤ j) (h0 : xs[k0] = 1 / 2) (h1 : xs[k1] = 1 / 2) (n : Nat) :
+    (1 + 2 * pairProb xs i j) * pairProbN xs i j n =
+      2 * pairProb xs i j * (1 - (1 / 2 - pairProb xs i j) ^ n) := by
+  have hu : phaseProb xs i = 1 / 2 := by
+    have := segregation_half xs k0 i hk0 (by omega) h0 true
+    rw [phase_law xs i (by omega) true] at this
+    simpa using this
+  have hv : phaseProb xs j = 1 / 2 := by
+    have := segregation_half xs k1 j hk1 hj h1 true
+    rw [phase_law xs j hj true] at this
+    simpa using this
+  have hw : crossProb xs i j = 1 / 2 := by
+    unfold crossProb; rw [hu, hv]; norm_num
+  have := selfIter_closed (pairProb xs i j) (1 / 2) 0 n
+  unfold pairProbN
+  rw [hw]
+  linear_combination 2 * this
+
+/-- **Doubled haploids after `n` selfing generations** (the DH protocols with `nself = n`: `dh_progeny_copies`
+    is one more `mat_dh` on the selfed population).  The gamete's own meiosis and the `2n` meioses of the plant's
+    line are independent; markers i < j of the doubled haploid carry different founder copies with probability
+    `pairProbN … (n + 1)` — the doubled haploid is, in law, one chromosome copy of generation `n + 1`. -/
+theorem dh_after_selfing_recombination_law (xs : List α) (i j : Nat) (hij : i < j) (hj : j < xs.length) (n : Nat) :
+    E (xs ++ rep (2 * n) xs) (fun b => ind (labDH xs.length n b i != labDH xs.length n b j)) =
+      pairProbN xs i j (n + 1) := by
+  let A : Bool → Bool → List Bool → α := fun p q a =>
+    ind ((phases a).getD i false == p && (phases a).getD j false == q)
+  let Q : Bool → Bool → List Bool → α := fun p q t =>
+    ind (labO xs.length n t p i != labO xs.length n t q j)
+  have hsplit : (fun b : List Bool => (ind (labDH xs.length n b i != labDH xs.length n b j) : α)) =
+      fun b => A false false (b.take xs.length) * Q false false (b.drop xs.length) +
+               A false true (b.take xs.length) * Q false true (b.drop xs.length) +
+               A true false (b.take xs.length) * Q true false (b.drop xs.length) +
+               A true true (b.take xs.length) * Q true true (b.drop xs.length) := by
+    funext b
+    simp only [labDH, A, Q]
+    cases (phases (b.take xs.length)).getD i false <;> cases (phases (b.take xs.length)).getD j false <;>
+      simp [ind]
+  rw [hsplit, E_add, E_add, E_add, E_split_append, E_split_append, E_split_append, E_split_append]
+  have hA : ∀ p q, E xs (A p q) =
+      (if p then phaseProb xs i else 1 - phaseProb xs i) * (if xor p q then pairProb xs i j else 1 - pairProb xs i j) :=
+    fun p q => joint_phase_law xs i j hij hj p q
+  have hQ : ∀ p q, E (rep (2 * n) xs) (Q p q) = if p = q then pairProbN xs i j n else crossProbN xs i j n :=
+    fun p q => n_generation_recombination_law xs i j hij hj n p q
+  rw [hA, hA, hA, hA, hQ, hQ, hQ, hQ]
+  have hnew := selfIter_newest (pairProb xs i j) (crossProb xs i j) n
+  simp only [pairProbN, crossProbN] at hnew ⊢
+  rw [hnew]
+  simp
+  ring
+
+example : pairProbN [(1:ℚ)/2, 1/10, 1/5] 0 2 3 = 13/50 * (1 - (1/2 - 13/50)^3) * 2 / (1 + 2 * (13/50)) := by
+  norm_num [pairProbN, selfIter, selfStep, crossProb, pairProb, phaseProb, oddProb, prodD, dfac]
+example : E (rep (2 * 1) [(1:ℚ)/2, 1/4]) (fun b => ind (labO 2 1 b false 0 != labO 2 1 b true 1)) = 1/2 := by
+  have := n_generation_recombination_law [(1:ℚ)/2, 1/4] 0 1 (by decide) (by decide) 1 false true
+  simp only [List.length_cons, List.length_nil] at this
+  rw [this]; norm_num [crossProbN, selfIter, selfStep, crossProb, pairProb, phaseProb, oddProb, prodD, dfac]
+example : labO 2 2 ([true, false] ++ [false, true] ++ ([false, false] ++ [true, true])) true 1 = true := by decide
+
+end generations
+
+section generationsOrd
+variable {α : Type} [Field α] [LinearOrder α] [IsStrictOrderedRing α]
+
+/-- **Selfing to fixation.**  With crossover probabilities in [0, 1/2] and fair segregation, the recombination
+    frequency inside one chromosome copy after `n` selfing generations is within `(1/2)^n` of the
+    Haldane–Waddington value `2r / (1 + 2r)` of recombinant inbred lines — for every vector and marker pair. -/
+theorem selfing_recombination_converges (xs : List α) (hx : ∀ x ∈ xs, 0 ≤ x ∧ x ≤ 1 / 2)
+    (i j k0 k1 : Nat) (hij : i < j) (hj : j < xs.length) (hk0 : k0 ≤ i) (hk1 : k1 ≤ j)
+    (h0 : xs[k0] = 1 / 2) (h1 : xs[k1] = 1 / 2) (n : Nat) :
+    |pairProbN xs i j n - 2 * pairProb xs i j / (1 + 2 * pairProb xs i j)| ≤ (1 / 2) ^ n := by
+  have hu : phaseProb xs i = 1 / 2 := by
+    have := segregation_half xs k0 i hk0 (by omega) h0 true
+    rw [phase_law xs i (by omega) true] at this
+    simpa using this
+  have hv : phaseProb xs j = 1 / 2 := by
+    have := segregation_half xs k1 j hk1 hj h1 true
+    rw [phase_law xs j hj true] at this
+    simpa using this
+  have hw : crossProb xs i j = 1 / 2 := by
+    unfold crossProb; rw [hu, hv]; norm_num
+  obtain ⟨r0, r1⟩ := pairProb_le_half xs hx i j
+  unfold pairProbN
+  rw [hw]
+  exact selfIter_half_close _ r0 r1 n
+
+end generationsOrd
+
+section generationsCells
+open Meiosis Mating
+variable {α ρ : Type} [LinearOrder ρ] [Zero ρ]
+
+/-- **`n` generations, cell by cell** (the deterministic fact behind `n_generation_recombination_law`): founder
+    copies `g0`, `g1`; masks of the `2n` meioses oldest generation first; copy `c` of the generation-`n` plant
+    carries at marker k the allele of founder copy `labO m n b c k`. -/
+theorem n_generation_cell {γ : Type} (m n : Nat) (g0 g1 : List γ) (b : List Bool)
+    (e0 : g0.length = m) (e1 : g1.length = m) (eb : b.length = 2 * n * m) (c : Bool) (k : Nat) (hk : k < m) :
+    (if c then (selfMosaic m n g0 g1 b).2 else (selfMosaic m n g0 g1 b).1)[k]? =
+      (if labO m n b c k then g1 else g0)[k]? :=
+  selfMosaic_cell m n g0 g1 b e0 e1 eb c k hk
+
+/-- **The selfing loop of every protocol, plant by plant and cell by cell.**  `selfGens xo n pop d` is what the
+    `for i in range(nself)` loop of all seven `mate()` computes (`selfing_generations_are_single_meioses`).  For
+    plant `k` whose draw rows have one entry per marker (`RowsOK`): copy `c` of its `n`-th selfed descendant
+    carries at marker `j` the allele of copy `labO … c j` of plant `k` itself, where the masks are the
+    comparisons of ITS OWN rows (row k of the two draw matrices of each generation) with `xoprob` — no draw of
+    another plant or another generation enters. -/
+theorem selfed_plant_cell (xo : List ρ) (n : Nat) (pop : Pop α) (d : List (DrawMat ρ)) (k : Nat)
+    (hk : k < pop.length) (e0 : pop[k].1.length = xo.length) (e1 : pop[k].2.length = xo.length)
+    (hd : RowsOK xo k n d) (c : Bool) (j : Nat) (hj : j < xo.length) :
+    ∃ q, (selfGens xo n pop d)[k]? = some q ∧
+      (if c then q.2 else q.1)[j]? =
+        (if labO xo.length n (plantMasks xo k n d) c j then pop[k].2 else pop[k].1)[j]? := by
+  refine ⟨_, selfGens_eq_selfMosaic xo n pop d k hk e0 e1 hd, ?_⟩
+  exact selfMosaic_cell xo.length n _ _ _ e0 e1 (plantMasks_length xo k n d hd) c j hj
+
+/-- **Every non-DH protocol, every `nself`: the returned progeny cell by cell.**  Whenever `generate` succeeds
+    for `SelfCross`, `TwoWayCross`, `ThreeWayCross` or `FourWayCross` there are the hybrid population `hyb` built by
+    the protocol's crosses and the draw matrices `d1` of the selfing stage such that progeny k is the `nself`-th
+    selfed descendant of hybrid k: copy `c`, marker `j` carries the allele of copy `labO …` of hybrid k, the masks
+    being the comparisons of row k of the `2·nself` selfing draw matrices with `xoprob`
+    (`n_generation_recombination_law` is the law of exactly this label). -/
+theorem protocol_selfed_progeny_cell (P : Proto) (hP : P.isDH = false) (pop : Pop α) (xc : List (List Nat))
+    (nm np : List Nat) (nself : Nat) (xo : List ρ) (d rest : List (DrawMat ρ)) (prog : Pop α)
+    (h : generate P pop xc nm np nself xo d = .ok (prog, rest)) :
+    ∃ (hyb : Pop α) (d1 : List (DrawMat ρ)), prog.length = hyb.length ∧
+      ∀ (k : Nat) (hk : k < hyb.length), hyb[k].1.length = xo.length → hyb[k].2.length = xo.length →
+        RowsOK xo k nself d1 → ∀ (c : Bool) (j : Nat), j < xo.length →
+          ∃ q, prog[k]? = some q ∧
+            (if c then q.2 else q.1)[j]? =
+              (if labO xo.length nself (plantMasks xo k nself d1) c j then hyb[k].2 else hyb[k].1)[j]? := by
+  obtain ⟨hyb, d1, _, hlen, hrest⟩ := selfing_generations_are_single_meioses P pop xc nm np nself xo d rest prog h
+  simp only [hP, Bool.false_eq_true, if_false] at hrest
+  obtain ⟨hprog, _⟩ := hrest
+  refine ⟨hyb, d1, by rw [hprog, hlen], fun k hk e0 e1 hd c j hj => ?_⟩
+  rw [hprog]
+  exact selfed_plant_cell xo nself hyb d1 k hk e0 e1 hd c j hj
+
+example : selfMosaic 2 2 [10, 11] [20, 21] [true, false, false, true, true, true, false, false] =
+    ([10, 21], [20, 21]) := by decide
+example : labO 2 2 [true, false, false, true, true, true, false, false] false 1 = true := by decide
+example : plantMasks [(1:Rat)/2, 1/4] 0 2 [[[1/4, 1/2]], [[3/4, 1/8]], [[1/4, 1/8]], [[3/4, 3/4]]] =
+    [true, false, false, true, true, true, false, false] := by decide +kernel
+example : RowsOK [(1:Rat)/2, 1/4] 0 2 [[[1/4, 1/2]], [[3/4, 1/8]], [[1/4, 1/8]], [[3/4, 3/4]]] := by
+  simp [RowsOK]
+
+end generationsCells
 
 -- non-vacuity of the wiring theorems: a two-way cross 0 x 1 with one mating and two progeny
 example : Mating.generate (α := Int) .twoWay [([10, 11], [20, 21]), ([30, 31], [40, 41])] [[0, 1]] [1] [2] 0
